@@ -1,5 +1,6 @@
 import OsmVerif.Model.PbfCache
 import OsmVerif.Lemmas.Pbf
+import OsmVerif.Lemmas.PbfRoundTrip
 /-!
 # C01 — a PBF scan yields exactly the encoded header and elements
 
@@ -111,7 +112,81 @@ theorem file_is_blockwise (b : Block) (bs : List Block) :
     | none => rfl
     | some r => simp
 
+/-! ## decode ∘ encode -/
+
+/-- **decode ∘ encode = meaning, for every list of nodes**: a dense group written from any nodes (delta coded
+    ids, coordinates, timestamps, changesets, uids, user ids; keys_vals with one delimiter per node) decodes
+    to exactly those nodes — ids, metadata, coordinates `offset + granularity·raw`, tags in order -/
+theorem decode_encode_dense (gran dg la lo : Int) (st : List String) (ns : List RNode) (hv : ∀ n ∈ ns, Valid st n) :
+    decodeDense gran dg la lo st (encodeDense ns) = some (ns.map (meaning gran dg la lo st)) := by
+  unfold decodeDense
+  simp only [encodeDense, delta_length, List.length_map, ne_eq, not_true_eq_false, or_self, if_false, if_true,
+    undelta_delta, Option.map_some]
+  -- the tag lists
+  have htags : (if (ns.flatMap fun n => encTags n.tags ++ [(0 : Int)]).isEmpty = true then some (List.replicate ns.length [])
+      else splitKV st ns.length (ns.flatMap fun n => encTags n.tags ++ [(0 : Int)])) =
+      some (ns.map fun n => n.tags.map fun (k, v) => (st.getD k "", st.getD v "")) := by
+    cases ns with
+    | nil => simp
+    | cons n rest =>
+      have : ((n :: rest).flatMap fun n => encTags n.tags ++ [(0 : Int)]).isEmpty = false := by simp
+      rw [this]
+      simp only [Bool.false_eq_true, if_false]
+      exact splitKV_enc st (n :: rest) hv
+  simp only [htags]
+  refine range_mapM_eq _ _ ns ?_
+  intro i hi
+  have hvi := hv ns[i] (List.getElem_mem hi)
+  have hl (f : RNode → Int) : i < (ns.map f).length := by simpa using hi
+  simp only [getCol_some _ i (hl _), List.getElem_map, List.getD_eq_getElem?_getD, List.getElem?_map,
+    List.getElem?_eq_getElem hi, Option.map_some, Option.getD_some]
+  rw [str_nat st ns[i].sid hvi.1]
+  simp only [Option.map_some, meaning]
+  cases ns[i].vis <;> simp
+
+/-- decode ∘ encode for ways: delta-coded refs, parallel key/value columns, Info -/
+theorem decode_encode_way (gran dg la lo : Int) (st : List String) (w : RWay)
+    (hs : w.md.sid < st.length) (ht : ∀ kv ∈ w.tags, kv.1 < st.length ∧ kv.2 < st.length) :
+    decodeWay gran dg la lo st (encodeWay w) = some (wayMeaning dg st w) := by
+  unfold decodeWay
+  simp only [encodeWay, Option.getD_some, undelta_delta, decodeInfo_encode dg st w.md hs, decodeTags_encode st w.tags ht]
+  simp only [wayMeaning, Option.some.injEq, Way.mk.injEq, true_and]
+  have := range_map_getD w.refs 0 (fun r => ({ ref := r } : WayNode))
+  have hr : ∀ i : Nat, ((List.replicate w.refs.length (none : Option Int))[i]?).getD none = none := by
+    intro i
+    simp only [List.getElem?_replicate]
+    split <;> rfl
+  simpa [List.getD_eq_getElem?_getD, hr] using this
+
+
+/-- decode ∘ encode for relations: parallel role / delta-coded member id / type columns -/
+theorem decode_encode_rel (dg : Int) (st : List String) (r : RRel)
+    (hs : r.md.sid < st.length) (ht : ∀ kv ∈ r.tags, kv.1 < st.length ∧ kv.2 < st.length)
+    (hm : ∀ m ∈ r.members, m.1 ≤ 2 ∧ m.2.2 < st.length) :
+    decodeRel dg st (encodeRel r) = some (relMeaning dg st r) := by
+  unfold decodeRel
+  simp only [encodeRel, Option.getD_some, undelta_delta, List.length_map, ne_eq, not_true_eq_false, or_self, if_false,
+    decodeInfo_encode dg st r.md hs, decodeTags_encode st r.tags ht]
+  have hmem : (List.range r.members.length).mapM (fun i =>
+      (str st ((r.members.map fun m => (m.2.2 : Int)).getD i 0)).bind fun role =>
+        let t := (r.members.map fun m => (m.1 : Int)).getD i 0
+        if t < 0 ∨ t > 2 then none
+        else some ({ type := t, ref := (r.members.map (·.2.1)).getD i 0, role := role } : Member)) =
+      some (r.members.map fun m => { type := (m.1 : Int), ref := m.2.1, role := st.getD m.2.2 "" }) := by
+    refine range_mapM_eq _ _ r.members ?_
+    intro i hi
+    have h := hm r.members[i] (List.getElem_mem hi)
+    simp only [List.getD_eq_getElem?_getD, List.getElem?_map, List.getElem?_eq_getElem hi, Option.map_some, Option.getD_some]
+    rw [str_nat st _ h.2]
+    have : ¬ (((r.members[i].1 : Nat) : Int) < 0 ∨ ((r.members[i].1 : Nat) : Int) > 2) := by omega
+    simp [this]
+  simp only [hmem, relMeaning]
+
 /-! ## non-vacuity -/
+example : decodeDense 100 1000 0 0 ["", "u", "k", "v"]
+    (encodeDense [⟨5, 10, 7, 1, 2, 3, 4, 1, true, [(2, 3)]⟩, ⟨3, -1, 2, 9, 5, 1, 4, 0, false, []⟩]) =
+    some [{ id := 5, md := { ver := 1, ts := some 2000, cs := 3, uid := 4, user := "u", vis := true }, lat := 1000, lon := 700, tags := [("k", "v")] },
+          { id := 3, md := { ver := 9, ts := some 5000, cs := 1, uid := 4, user := "", vis := false }, lat := -100, lon := 200 }] := by decide
 example : decodeDense 100 1000 0 0 ["", "name", "x"] { ids := [5, 2], lat := [10, -3], lon := [7, 1], kv := some [1, 2, 0, 0] } =
     some [{ id := 5, lat := 1000, lon := 700, tags := [("name", "x")] }, { id := 7, lat := 700, lon := 800 }] := by decide
 example : undelta [5, 2, -3] = [5, 7, 4] ∧ delta [5, 7, 4] = [5, 2, -3] := by decide
